@@ -158,6 +158,37 @@ VIOLATION_MSGS = ("postcondition not satisfied", "precondition not satisfied", "
                   "unreachable", "index out of bounds", "might not be allowed", "failed this")
 
 
+def run_vacuity(root, scratch, idx, unit):
+    """thorough tier: every function with its own `requires` gets a twin with `ensures false`; the twin must FAIL"""
+    u = registry.UNITS[unit]
+    try:
+        text, origin, info = gen.build_unit(idx, u["verify"], u["trusted"], u["spec"], root, spec_import=u.get("spec_import", ()),
+                                            module_ext=u.get("module_ext", True), vacuity=True)
+    except gen.GenError as e:
+        return dict(unit=unit, checked=[], vacuous=[], note="generator: %s" % e)
+    fns = list(gen.VACUITY["fns"])
+    if not fns:
+        return dict(unit=unit, checked=[], vacuous=[])
+    path = os.path.join(scratch.dir, "vac_%s.rs" % unit)
+    open(path, "w").write(text)
+    rc, out, err, dt = run(["verus", path, "--num-threads", str(max(4, NCPU // 2)), "--error-format=json", "--multiple-errors", "1"],
+                           cwd=scratch.dir, timeout=1500)
+    failed = set()
+    for ln in err.split("\n"):
+        ln = ln.strip()
+        if not ln.startswith("{"):
+            continue
+        try:
+            d = json.loads(ln)
+        except Exception:
+            continue
+        for sp in d.get("spans", []):
+            o = origin.get(sp["line_start"])
+            if o and o.endswith("#vacuity-twin"):
+                failed.add(o.rsplit(":", 1)[0])
+    return dict(unit=unit, checked=fns, vacuous=[f for f in fns if f not in failed], wall_s=round(dt, 1))
+
+
 def run_unit(root, scratch, idx, unit, rlimit=None):
     u = registry.UNITS[unit]
     res = dict(unit=unit, failures=[], undecided=[], verified=0, errors=0, fns=[], time_s=0.0, smt_s=0.0, rewrites=[],
@@ -400,7 +431,7 @@ def run_kani(root, scratch, harnesses, tier):
         out["undecided"].append(str(e))
         return out
     out["overlay"] = ["%s: %s::%s += %s" % (f, i, fn, "; ".join(a)) for f, i, fn, a in inserted]
-    hto = int(os.environ.get("VERIF_HARNESS_TIMEOUT", "150" if tier == "quick" else "900"))
+    hto = int(os.environ.get("VERIF_HARNESS_TIMEOUT", "150" if tier == "quick" else "600"))
     cmd = ["cargo", "kani", "-Z", "function-contracts", "-Z", "stubbing", "-Z", "unstable-options", "--harness-timeout", "%ds" % hto,
            "-j", str(min(NCPU, 12)), "--output-format=terse"]
     for h in harnesses:
@@ -542,10 +573,17 @@ def decide(root, prop, tier, seed, scratch, t0, ev_path):
         if units:
             idx, exp_dt = expand(scratch)
             futs = [ex.submit(run_unit, root, scratch, idx, u) for u in units]
+            vfuts = [ex.submit(run_vacuity, root, scratch, idx, u) for u in units] if tier == "thorough" else []
             ures = [f.result() for f in futs]
+            vac = [f.result() for f in vfuts]
         kres = kfut.result()
 
     undecided = []
+    if not units:
+        vac = []
+    for vr in vac:
+        for f in vr.get("vacuous", []):
+            undecided.append("[unit %s] vacuity guard: the precondition of %s admits no state (its `ensures false` twin verified)" % (vr["unit"], f))
     violations = []   # dict(oid, backend, detail)
     other = []
     obligations = 0
@@ -699,7 +737,7 @@ def decide(root, prop, tier, seed, scratch, t0, ev_path):
         rc = 2
     for ln in printed:
         print(ln)
-    cover = dict(ures=ures, kres=kres, exp_dt=exp_dt, smt_s=smt_s, kani_time=kani_time, bounded=bounded, rewrites=rewrites,
+    cover = dict(vacuity=vac, ures=ures, kres=kres, exp_dt=exp_dt, smt_s=smt_s, kani_time=kani_time, bounded=bounded, rewrites=rewrites,
                  other=other, undecided=undecided, units=units)
     write_evidence(ev_path, prop, tier, seed, t0, cover, fn_list, samples, sorted(trusted), violations, dict(
         obligations=obligations, discharged=discharged, nviol=nviol))
@@ -735,6 +773,8 @@ def write_evidence(path, prop, tier, seed, t0, cover, fn_list, samples, trusted,
                          "complete Kani harnesses. Bounded Kani stand-ins are listed under bounded_checks and not counted."),
             functions_under_contract=fn_list,
             not_under_contract=registry.GAPS.get(prop, []),
+            vacuity_guard=dict(obligation_count_nonzero=counts.get("obligations", 0) > 0,
+                               requires_twins=[dict(unit=v["unit"], functions_with_requires=v.get("checked", []), vacuous=v.get("vacuous", [])) for v in cover.get("vacuity", [])]),
             bounded_checks=cover.get("bounded", []),
             backends=dict(
                 verus=[dict(unit=u["unit"], verified=u["verified"], errors=u["errors"], wall_s=u["time_s"], smt_s=u.get("smt_s", 0.0),
